@@ -12,8 +12,13 @@
 static void _command_fini(void *ptr)
 {
 	MPT_STRUCT(command) *c = ptr;
-	if (c->cmd) {
-		c->cmd(c->arg, 0);
+	int (*fcn)(void *, void *);
+	if ((fcn = c->cmd)) {
+		void *ctx = c->arg;
+		/* unregister first: the notification may look up or remove commands itself */
+		c->cmd = 0;
+		c->arg = 0;
+		fcn(ctx, 0);
 	}
 }
 static int _command_init(void *ptr, const void *src)
